@@ -247,46 +247,50 @@ def mc_deviations(ctx, kd):
 
 # --------------------------------------------------------------------------- self-test, replay
 def selftest(ctx, trace, kd):
-    """Binding self-test: corrupt one logged digest / one contact list / drop one event -> the monitor must flag it."""
+    """Binding self-test: corrupt one logged digest / one contact list / drop one event -> the monitor must flag it.
+    The events are taken from runs the monitor accepts as they are."""
     lines = lib.read_lines(trace)[:3000]
     cut = max(i for i, l in enumerate(lines) if lib.is_new(l))
     lines = lines[:cut]
+    cfg = ctx.path("t_failover.cfg")
+    lib.write_cfg(cfg, {"KnownDeviations": lib.tla_set(kd)}, "TInit", "TNext", invariants=["Done"])
+    base_p = ctx.path("selftest_0.ndjson"); open(base_p, "w").write("\n".join(lines) + "\n")
+    base = lib.tlc_trace(ctx, MODULE_T, cfg, base_p)
+    bad_runs = {lib.run_of_line(lines, ln)[0] for ln in base["violations"]}
     ia = ib = ic = None
     for i, l in enumerate(lines):
-        if lib.is_new(l) or i < 20:
+        if lib.is_new(l) or i < 20 or lib.run_of_line(lines, i + 1)[0] in bad_runs:
             continue
         e = json.loads(l)
         if e["op"] != "query":
             continue
         if ia is None and e["res"]["class"] == "ok" and e["contacted"]:
             ia = i
-        elif ia is not None and ib is None and i > ia + 5 and len(e["contacted"]) >= 2:
+        elif ia is not None and ib is None and i > ia + 5 and len(set(e["contacted"])) >= 2:
             ib = i
-        elif ib is not None and ic is None and i > ib + 5 and not lib.is_new(lines[i + 1]) and i + 1 < len(lines):
+        elif ib is not None and ic is None and i > ib + 5 and i + 1 < len(lines) and not lib.is_new(lines[i + 1]):
             ic = i
     if None in (ia, ib, ic):
-        raise lib.ToolError("binding self-test: no suitable events in the trace")
-    base_p = ctx.path("selftest_0.ndjson"); open(base_p, "w").write("\n".join(lines) + "\n")
-    e = json.loads(lines[ia]); d = e["res"]["digest"]; e["res"]["digest"] = ("0" if d[0] != "0" else "1") + d[1:]
-    la = list(lines); la[ia] = json.dumps(e, separators=(",", ":"))
-    pa = ctx.path("selftest_a.ndjson"); open(pa, "w").write("\n".join(la) + "\n")
-    e = json.loads(lines[ib]); e["contacted"] = e["contacted"][::-1]
-    lb = list(lines); lb[ib] = json.dumps(e, separators=(",", ":"))
-    pb = ctx.path("selftest_b.ndjson"); open(pb, "w").write("\n".join(lb) + "\n")
-    lc = list(lines); del lc[ic]
-    pc = ctx.path("selftest_c.ndjson"); open(pc, "w").write("\n".join(lc) + "\n")
-    cfg = ctx.path("t_failover.cfg")
-    lib.write_cfg(cfg, {"KnownDeviations": lib.tla_set(kd)}, "TInit", "TNext", invariants=["Done"])
-    base = lib.tlc_trace(ctx, MODULE_T, cfg, base_p)
-    va = lib.tlc_trace(ctx, MODULE_T, cfg, pa)
-    vb = lib.tlc_trace(ctx, MODULE_T, cfg, pb)
-    vc = lib.tlc_trace(ctx, MODULE_T, cfg, pc)
-    res = {"corrupt_one_digest_flagged": (ia + 1) in va["violations"] and (ia + 1) not in base["violations"],
-           "reorder_one_contact_list_flagged": (ib + 1) in vb["violations"] and (ib + 1) not in base["violations"],
-           "drop_one_event_flagged": (ic + 1) in vc["violations"] and len(vc["violations"]) > len(base["violations"])}
+        res = {"skipped": "no suitable conforming events in the first runs of the trace"}
+    else:
+        e = json.loads(lines[ia]); d = e["res"]["digest"]; e["res"]["digest"] = ("0" if d[0] != "0" else "1") + d[1:]
+        la = list(lines); la[ia] = json.dumps(e, separators=(",", ":"))
+        pa = ctx.path("selftest_a.ndjson"); open(pa, "w").write("\n".join(la) + "\n")
+        e = json.loads(lines[ib]); e["contacted"] = e["contacted"][::-1]
+        lb = list(lines); lb[ib] = json.dumps(e, separators=(",", ":"))
+        pb = ctx.path("selftest_b.ndjson"); open(pb, "w").write("\n".join(lb) + "\n")
+        lc = list(lines); del lc[ic]
+        pc = ctx.path("selftest_c.ndjson"); open(pc, "w").write("\n".join(lc) + "\n")
+        va = lib.tlc_trace(ctx, MODULE_T, cfg, pa)
+        vb = lib.tlc_trace(ctx, MODULE_T, cfg, pb)
+        vc = lib.tlc_trace(ctx, MODULE_T, cfg, pc)
+        res = {"corrupt_one_digest_flagged": (ia + 1) in va["violations"],
+               "reorder_one_contact_list_flagged": (ib + 1) in vb["violations"],
+               "drop_one_event_flagged": (ic + 1) in vc["violations"]}
     ctx.cov["binding_selftest"] = res
     ctx.stage("selftest", **res)
-    if not all(res.values()):
+    # on a tree that already violates the property the verdict is the violation, not the state of this self-test
+    if not all(v is True for v in res.values()) and not ctx.violations:
         raise lib.ToolError(f"binding self-test failed: {res}")
 
 
